@@ -20,7 +20,7 @@ types:
     - id: compression_type
       type: u4
       enum: compression
-      doc: The compression algorithm used. 0 means no compression, 1 means Snappy, 2 means Gzip.
+      doc: The compression algorithm used. 0 means no compression, 1 means Gzip, 2 means Snappy, 3 means Lzw.
   record:
     doc: |
       recordio record is an "infinite" stream of magic number separated and length encoded byte arrays.
@@ -41,10 +41,13 @@ types:
         size: len_payload
     instances:
       len_payload:
-        value: uncompressed_payload_len.value ^ compressed_payload_len.value
-        doc: The size is either the compressed or uncompressed length.
+        value: 'record_nil == 1 ? 0 : (_root.file_header.compression_type == compression::none ? uncompressed_payload_len.value : compressed_payload_len.value)'
+        doc: |
+          The size of the stored payload: nothing is stored for a nil record (even though its header carries the length of a
+          compressed empty payload), the compressed length in compressed files and the uncompressed length otherwise.
 enums:
   compression:
     0: none
-    1: snappy
-    2: gzip
+    1: gzip
+    2: snappy
+    3: lzw
